@@ -28,17 +28,19 @@ type c12out struct {
 }
 
 type c12case struct {
-	Files     []string `json:"files"` // relative to the project; trailing "/" = directory
-	Outs      []c12out `json:"outs"`
-	CleanTask bool     `json:"clean_task"`
-	Nested    bool     `json:"nested"`    // invoked from a nested directory
-	HasCache  bool     `json:"has_cache"` // a .spok directory exists before
+	Files     []string    `json:"files"` // relative to the project; trailing "/" = directory
+	Outs      []c12out    `json:"outs"`
+	CleanTask bool        `json:"clean_task"`
+	Nested    bool        `json:"nested"`          // invoked from a nested directory
+	HasCache  bool        `json:"has_cache"`       // a .spok directory exists before
+	Links     [][2]string `json:"links,omitempty"` // symlinks: path relative to the project -> target
 }
 
 func (k c12case) key() string { b, _ := json.Marshal(k); return string(b) }
 
-var c12FilePool = []string{"a.txt", "gen.txt", "x.o", "y.o", "lib/z.o", "build/out.bin", "build/sub/deep.bin", "dist/", "keep/me.txt", "src/main.c", "src/gen/auto.c", ".hidden.o", "out/f", "nested/dir/", "notes.md", "bin/tool"}
-var c12Literals = []string{"gen.txt", "build", "build/sub", "missing.out", "dist", "x.o", "bin/tool", "out", "src/gen"}
+var c12FilePool = []string{"a.txt", "gen.txt", "x.o", "y.o", "lib/z.o", "build/out.bin", "build/sub/deep.bin", "dist/", "keep/me.txt", "src/main.c", "src/gen/auto.c", ".hidden.o", "out/f", "nested/dir/", "notes.md", "bin/tool", "report[1].txt", "report1.txt", "out-v?.dat", "out-v1.dat"}
+var c12Literals = []string{"gen.txt", "build", "build/sub", "missing.out", "dist", "x.o", "bin/tool", "out", "src/gen", "report[1].txt", "out-v?.dat", "latest", "assets", "cur"}
+var c12LinkPool = [][2]string{{"latest", "keep/me.txt"}, {"assets", "../sibling"}, {"cur", "build"}, {"lib/link.o", "../x.o"}}
 var c12Globs = []string{"*.o", "**/*.o", "build/*", "nomatch/*.zzz", "*", "src/**/*.c", "*.{o,bin}", "**/*.bin", "lib/*"}
 var c12Dangerous = []string{"", ".", "..", "./", "build/..", "spokfile", "../proj", "./spokfile", "build/../.."}
 var c12VarNames = []string{"OUT", "BIN_DIR", "DIST", "EMPTY", "GEN"}
@@ -48,6 +50,11 @@ func c12Gen(r *core.Rng) c12case {
 	for _, f := range c12FilePool {
 		if r.Chance(60) {
 			k.Files = append(k.Files, f)
+		}
+	}
+	for _, l := range c12LinkPool {
+		if r.Chance(35) {
+			k.Links = append(k.Links, l)
 		}
 	}
 	k.Nested = r.Chance(25)
@@ -162,6 +169,11 @@ func c12Judge(c *core.Ctx, k c12case, res *core.ShardResult) (vs []core.Violatio
 		files[f] = "content of " + f
 	}
 	_ = core.WriteFiles(proj, files)
+	for _, l := range k.Links {
+		full := filepath.Join(proj, l[0])
+		_ = os.MkdirAll(filepath.Dir(full), 0o755)
+		_ = os.Symlink(l[1], full)
+	}
 	text := k.text()
 	_ = os.WriteFile(filepath.Join(proj, "spokfile"), []byte(text), 0o644)
 	if k.HasCache {
@@ -196,9 +208,10 @@ func c12Judge(c *core.Ctx, k c12case, res *core.ShardResult) (vs []core.Violatio
 			for _, p := range ref.Denotation(proj, o.Text) {
 				declared[p] = true
 			}
-			// directories whose relative path matches the pattern (non-hidden)
+			// directories and symlinks whose relative path matches the pattern (non-hidden): they may
+			// be removed (the link itself, never what it points to) but need not be
 			_ = filepath.Walk(proj, func(p string, info os.FileInfo, err error) error {
-				if err != nil || !info.IsDir() || p == proj {
+				if err != nil || info.Mode().IsRegular() || p == proj {
 					return nil
 				}
 				rel, _ := filepath.Rel(proj, p)
@@ -423,7 +436,7 @@ func c12Run(c *core.Ctx) bool {
 	cov := map[string]any{
 		"evaluations":         total.Evaluations,
 		"distinct_nontrivial": distinct,
-		"rule":                "random project trees (files inside and outside declared outputs, nested directories, pre-existing and missing outputs, a sibling directory and files above the project, with/without an existing cache) x spokfiles declaring 0-5 outputs: literal files/directories, variables (relative, or absolute via join), globs (matching files, directories, nothing, '*' which matches the spokfile) and in 30% of the cases dangerous values ('', '.', '..', './', 'build/..', 'spokfile', '../proj', ...); with/without a task named clean; invoked from the project root or a nested directory. Race-built binary under strace -f; monitors: full before/after snapshot (path, type, mode, sha256) of the whole sandbox and every successful unlink/rmdir/rename/open-for-write/truncate/chmod/mkdir resolved to an absolute path. evaluations = traced invocations; non-trivial = distinct cases with >=1 designated output (or a refusal, or a clean task) that passed every clause",
+		"rule":                "random project trees (files inside and outside declared outputs, nested directories, pre-existing and missing outputs, a sibling directory and files above the project, symlinks to a file, to a directory inside and to a directory outside the project, file names containing '[' and '?', with/without an existing cache) x spokfiles declaring 0-5 outputs: literal files/directories, variables (relative, or absolute via join), globs (matching files, directories, nothing, '*' which matches the spokfile) and in 30% of the cases dangerous values ('', '.', '..', './', 'build/..', 'spokfile', '../proj', ...); with/without a task named clean; invoked from the project root or a nested directory. Race-built binary under strace -f; monitors: full before/after snapshot (path, type, mode, sha256) of the whole sandbox and every successful unlink/rmdir/rename/open-for-write/truncate/chmod/mkdir resolved to an absolute path. evaluations = traced invocations; non-trivial = distinct cases with >=1 designated output (or a refusal, or a clean task) that passed every clause",
 		"samples":             total.Samples,
 		"counters":            total.Counters,
 		"exhaustive":          false,
